@@ -385,7 +385,18 @@ func dumpTriggers(sqlCtx *sql.Context, engine *engine.SqlEngine, root doltdb.Roo
 		if !ok {
 			return fmt.Errorf("unexpected type for doltdb.SchemasTablesFragmentCol, expected string, got %T", row[fragColIdx])
 		}
+		// the body of a trigger may be a BEGIN ... END block with semicolons of its own
+		err = iohelp.WriteLine(writer, "delimiter END_TRIGGER")
+		if err != nil {
+			return err
+		}
+
 		err = iohelp.WriteLine(writer, fmt.Sprintf("%s;", fragCol))
+		if err != nil {
+			return err
+		}
+
+		err = iohelp.WriteLine(writer, "END_TRIGGER\ndelimiter ;")
 		if err != nil {
 			return err
 		}
